@@ -201,6 +201,8 @@ package server
 //@ spec func isMappedAttr(s stun.Setter, addr net.Addr) bool = typeis(s, *stun.XORMappedAddress) && sameSlice(s.(*stun.XORMappedAddress).IP, ipOf(addr)) && s.(*stun.XORMappedAddress).Port == portOf(addr)
 //@ spec func isLifetimeAttr(s stun.Setter, d int) bool = typeis(s, *proto.Lifetime) && int(s.(*proto.Lifetime).Duration) == d
 
+//@      // what a retransmitted Allocate is answered from: the response cached on the allocation
+//@ spec func cachedResp(a *allocation.Allocation) *allocation.allocationResponse = typeis(atomic(a.responseCache), *allocation.allocationResponse) ? atomic(a.responseCache).(*allocation.allocationResponse) : nil
 //@ func handleAllocateRequest
 //@   requires reqWF(req) && stunMsg != nil && req.NonceHash != nil && mgrReady(req.AllocationManager) && req.SrcAddr != nil
 //@   requires ownAlloc(req) != nil ==> true
@@ -219,6 +221,8 @@ package server
 //@   at-call buildAndSend assert [C06,C19:success-lifetime] int(typeOf(arg2).Class) == 2 && old(ownAlloc(req)) == nil ==> isLifetimeAttr(arg2[3], lifetimeOf(req, stunMsg))
 //@   at-call buildAndSend assert [C06,C19:success-timer] int(typeOf(arg2).Class) == 2 && old(ownAlloc(req)) == nil ==> timerSet(ownAlloc(req).lifetimeTimer, lifetimeOf(req, stunMsg))
 //@   at-call buildAndSend assert [C19:success-mapped] int(typeOf(arg2).Class) == 2 && old(ownAlloc(req)) == nil ==> isMappedAttr(arg2[4], req.SrcAddr)
+//@   at-call buildAndSend assert [C19:cache-matches-response] int(typeOf(arg2).Class) == 2 && old(ownAlloc(req)) == nil ==> cachedResp(ownAlloc(req)) != nil && cachedResp(ownAlloc(req)).transactionID == stunMsg.TransactionID && len(cachedResp(ownAlloc(req)).responseAttrs) == len(arg2) - 3 && (forall i :: 0 <= i && i < len(arg2) - 3 ==> cachedResp(ownAlloc(req)).responseAttrs[i] == arg2[2+i])
+//@   at-call buildAndSend assert [C19:retransmit-replays-cache] int(typeOf(arg2).Class) == 2 && old(ownAlloc(req)) != nil && cachedResp(ownAlloc(req)) != nil ==> cachedResp(ownAlloc(req)).transactionID == stunMsg.TransactionID && len(arg2) == len(cachedResp(ownAlloc(req)).responseAttrs) + 3 && (forall i :: 0 <= i && i < len(cachedResp(ownAlloc(req)).responseAttrs) ==> arg2[2+i] == cachedResp(ownAlloc(req)).responseAttrs[i])
 //@   at-call buildAndSend assert [C19:retransmit-same] int(typeOf(arg2).Class) == 2 && old(ownAlloc(req)) != nil ==> ownAlloc(req) == old(ownAlloc(req)) && allocCreatedEvents == old(allocCreatedEvents)
 //@   ensures [C03:answered-only-requester] forall c :: c != req.Conn ==> pktWrites[c] == old(pktWrites[c])
 //@   ensures [C19:existing-untouched] old(ownAlloc(req)) != nil ==> ownAlloc(req) == old(ownAlloc(req)) && allocCreatedEvents == old(allocCreatedEvents)
